@@ -13,7 +13,7 @@ RULE = ('event sequences from boot over {ACCEPT, REFUSE, TICK (incl. TCP timeout
         'bad version/wrong AS/hold 0,1,2,9, KEEPALIVE, UPDATE empty/with a route, NOTIFICATION (2,1)/(6,2), ROUTE-REFRESH, bad marker, '
         'bad length 18/0/4097, unknown type, peer close/reset, STOP, START} in the single-connection regime, explored breadth-first '
         'with fingerprint (implementation + model state) de-duplication over three timer configurations, plus random walks; the same search continued from 13 prefix sessions (hold expiry coinciding with the boot timer, second sessions, stopped peerings, hold 0); UPDATEs incl. unknown address family / malformed / length overrun; every '
-        'step of every executed sequence is compared with the profile; distinct = distinct abstract states; pairs = (profile state, event) exercised')
+        'step of every executed sequence is compared with the profile; walks with UPDATE / NOTIFICATION / ROUTE-REFRESH frames with mutated bodies, with peer OPENs from a grammar (capability sets, packagings, hold times, 2-/4-octet AS forms, at most two faults: version, AS 0, other AS, hold 1/2, non-capability parameter, capability of a wrong length) and with NOTIFICATIONs of every code / sub-code with empty, binary, UTF-8, Latin-1 and cut text data; distinct = distinct abstract states; pairs = (profile state, event) exercised')
 ASSUMPTIONS = ['simulated Twisted reactor/connector/transport (verif/shims)',
                'reference profile vlib/fsm_profile.py: allowed-outcome sets are wider than one behaviour in six documented rows (DESIGN.md 3.3)',
                'REST state endpoint is the reported state']
